@@ -472,3 +472,60 @@ def r41(ctx: Ctx) -> RuleReport:
                for n in walk_local(gi.node))
     rep.oblige('Graph.__init__ normalises roles through _ensure_colon', uses, '', gi.loc(), key='Graph normalises colon')
     return rep
+
+
+# ---------------------------------------------------------------------------------------------
+# R19: parser (abstractly interpreted at token-kind level) == reference recogniser
+# ---------------------------------------------------------------------------------------------
+def _r19_bounds(ctx: Ctx):
+    return (7, 3) if ctx.tier == 'thorough' else (4, 2)
+
+
+@rule('R19', 'parse / iterparse accept exactly the documented language and report errors at the documented position (token-kind level)')
+def r19(ctx: Ctx) -> RuleReport:
+    from ..pfsm import Hang, Interp, NeedMore, reference
+    rep = RuleReport('R19', r19.title, floor=100)
+    L, D = _r19_bounds(ctx)
+    total_paths = 0
+    for entry in ('parse', 'iterparse'):
+        fi = ctx.repo.func('penman._parse', entry)
+        it = Interp(ctx.repo, ctx.cg, L, D)
+        try:
+            obs = it.run_entry(fi)
+        except Hang:
+            rep.violation(f'penman._parse:{entry}: abstract run terminates', fi.loc(),
+                          'a loop whose condition depends on the token stream completes an iteration without consuming a '
+                          'token: the parser can hang on some input')
+            continue
+        total_paths += it.n_paths
+        bad = 0
+        shown = 0
+        for seq in sorted(obs, key=lambda s: (len(s), s)):
+            got = obs[seq]
+            key = f'penman._parse:{entry}: ' + ' '.join(seq)
+            try:
+                want = reference(entry, seq)
+            except NeedMore:
+                want = ('reference-needs-more-input',)
+            if len(got) == 1 and next(iter(got)) == want:
+                if shown < 12:
+                    rep.ok(key, fi.loc(), f'{want}')
+                    shown += 1
+                else:
+                    rep.instances.append(__import__('pv.core', fromlist=['Instance']).Instance('R19', key, fi.loc(), 'ok'))
+                continue
+            bad += 1
+            if bad <= 8:
+                rep.violation(key, fi.loc(),
+                              f'for the token-kind sequence [{" ".join(seq)}] the parser gives {sorted(got, key=str)} but the documented '
+                              f'grammar prescribes {want} (ok/error shape, trees yielded so far, token index)')
+        if bad > 8:
+            rep.violation(f'penman._parse:{entry}: {bad - 8} further disagreeing sequences', fi.loc(), 'see the first eight')
+        rep.analysed[f'{entry}_sequences'] = len(obs)
+        rep.analysed[f'{entry}_steps'] = it.n_steps
+    rep.analysed['bounds'] = {'max_tokens': L, 'max_nesting': D}
+    rep.analysed['paths'] = total_paths
+    rep.assumptions += ['token texts are not modelled: conditions on texts fork both ways and must not change the token-level outcome',
+                        f'exhaustive for all token-kind sequences of at most {L} tokens with nesting at most {D}; the machines are '
+                        f'finite-state above a bounded stack, so deeper nesting repeats the same states']
+    return rep
